@@ -11,7 +11,7 @@ import (
 var intrinsicNames = map[string]bool{
 	"vU8": true, "vU16": true, "vU32": true, "vU64": true, "vBool": true,
 	"vassume": true, "vcheck": true, "vreach": true, "vpanics": true, "vpure": true,
-	"vmaporder": true, "vnote": true, "vsymtype": true, "vconcrete": true, "vconcreteInt": true, "vcheckEqInt": true, "vclockbound": true, "vmerge": true,
+	"vmaporder": true, "vnote": true, "vsymtype": true, "vconcrete": true, "vconcreteInt": true, "vcheckEqInt": true, "vclockbound": true, "vreps": true, "vmerge": true,
 }
 
 func isIntrinsicName(fn *ssa.Function) bool {
@@ -480,6 +480,8 @@ func (e *Engine) harnessIntrinsic(name string, args []Value, guard T, site *ssa.
 			e.conc[x.s] = int64(k.c)
 		}
 		return nil
+	case "vreps":
+		return bv(1, 64)
 	case "vclockbound":
 		// all later clock readings stay within d nanoseconds of the first one
 		e.clockMax = args[0].(T)
